@@ -26,6 +26,12 @@ build() { # $1 = profile
 
 if [ "${1:-}" = "replay" ]; then
   file="${2:?usage: ./check.sh replay <file>}"
+  if grep -q '"sub": "miri"' "$file" 2>/dev/null; then
+    K=$(sed -n 's/.*"kind": "\(.*\)".*/\1/p' "$file"); H=$(sed -n 's/.*"hex": "\(.*\)".*/\1/p' "$file"); P=$(sed -n 's/.*"property": "\(.*\)".*/\1/p' "$file")
+    if (cd harness && MIRIFLAGS="-Zmiri-disable-isolation" cargo +nightly miri run --bin miri_suite -- only "$K" "$H") >work/replay-miri-$$.log 2>&1; then echo "replay: Miri reports nothing on this case"; exit 0; fi
+    grep -E "error: Undefined Behavior|MIRI-SUITE-VIOLATION|panicked at" work/replay-miri-$$.log | head -3
+    echo "VIOLATION property=$P replay=$file"; exit 1
+  fi
   if grep -q '"sub": "fuzz-artifact"' "$file" 2>/dev/null; then
     T=$(sed -n 's/.*"target": "\(.*\)".*/\1/p' "$file"); A=$(sed -n 's/.*"artifact": "\(.*\)".*/\1/p' "$file"); P=$(sed -n 's/.*"property": "\(.*\)".*/\1/p' "$file")
     (cd harness && cargo +nightly fuzz build "$T") >work/build-fuzz-$$.log 2>&1 || { tail -20 work/build-fuzz-$$.log >&2; exit 2; }
@@ -59,6 +65,12 @@ if [ "$TIER" = thorough ] && [ "${MQV_NO_FUZZ:-0}" != 1 ]; then
     # the raw-input corpora are replayed through the plain binaries by the check itself
     CORPUS="$ROOT/work/fuzz/$ID/corpus"
     EXTRA+=(--fuzz-stats "$ROOT/work/fuzz/$ID/stats.json" --fuzz-corpus "$CORPUS");;
+  esac
+fi
+if [ "$TIER" = thorough ] && [ "${MQV_NO_MIRI:-0}" != 1 ]; then
+  case " C03 C05 " in *" $ID "*)
+    "$ROOT/miri.sh" "$ID" || exit $?
+    EXTRA+=(--miri-stats "$ROOT/work/miri/$ID/stats.json");;
   esac
 fi
 timeout --signal=KILL "$LIMIT" "$RELCHECK_BIN" check "$ID" --tier "$TIER" --seed "$SEED" --root "$ROOT" "${EXTRA[@]}"
